@@ -186,7 +186,10 @@ outer:
 			}
 
 		case pa := <-pm.chClosePathIfIdle:
-			if pa.pendingRequests.Load() == 0 {
+			// a reload may have moved the path to a static configuration
+			// after the path asked to be closed: static paths are never closed when idle.
+			if pathConf, ok := pm.pathConfs[pa.confName]; ok && pathConf.Regexp != nil &&
+				pa.pendingRequests.Load() == 0 {
 				pm.doClosePath(pa)
 			}
 
